@@ -426,11 +426,13 @@ pub fn run(cfg: &Cfg) {
             2 => Some(vec![]),
             _ => None,
         };
-        let algs: Option<Vec<&str>> = match r.below(6) {
+        let algs: Option<Vec<&str>> = match r.below(8) {
             0 => Some(vec!["sha256"]),
             1 => Some(vec!["sha512"]),
             2 => Some(vec!["sha256", "sha512"]),
             3 => Some(vec!["md5"]),
+            // (a selection that names an algorithm twice - before, between and after the others)
+            4 => Some(r.pick(&[vec!["sha256", "sha256", "sha512"], vec!["sha512", "sha512", "sha256"], vec!["sha256", "sha512", "sha256"], vec!["sha512", "sha256", "sha256"], vec!["sha256", "sha256"]]).clone()),
             _ => None,
         };
         let a2: Vec<&str> = args.iter().map(|s| s.as_str()).collect();
@@ -545,8 +547,14 @@ pub fn run(cfg: &Cfg) {
         }
         // every requested algorithm present in every entry
         if let (Ok(Ok(m)), Some(a)) = (&res, &algs) {
+            let distinct: std::collections::BTreeSet<&&str> = a.iter().collect();
             for v in m.values() {
-                sink.oracle(v.len() == a.len(), "an entry lacks a requested digest algorithm", &op);
+                sink.oracle(v.len() == distinct.len(), "an entry lacks a requested digest algorithm", &op);
+                for name in &distinct {
+                    let alg = if ***name == *"sha256" { in_toto::crypto::HashAlgorithm::Sha256 } else { in_toto::crypto::HashAlgorithm::Sha512 };
+                    let want_len = if ***name == *"sha256" { 64 } else { 128 };
+                    sink.oracle(v.get(&alg).map_or(false, |h| h.to_string().len() == want_len), "an entry's digest under a requested algorithm is missing or is not a digest of that algorithm", &op);
+                }
             }
         }
         // ---- in_toto_run: materials before, products after, byproducts = output and status
@@ -712,7 +720,7 @@ pub fn hashes_cases(sink: &mut Sink, r: &mut Rng, n: usize) {
             0 => vec![],
             1 => vec![HashAlgorithm::Sha256],
             2 => vec![HashAlgorithm::Sha512],
-            3 => vec![HashAlgorithm::Sha256, HashAlgorithm::Sha256],
+            3 => r.pick(&[vec![HashAlgorithm::Sha256, HashAlgorithm::Sha256], vec![HashAlgorithm::Sha256, HashAlgorithm::Sha256, HashAlgorithm::Sha512], vec![HashAlgorithm::Sha512, HashAlgorithm::Sha512, HashAlgorithm::Sha256], vec![HashAlgorithm::Sha256, HashAlgorithm::Sha512, HashAlgorithm::Sha256]]).clone(),
             4 => vec![HashAlgorithm::Sha512, HashAlgorithm::Sha256],
             _ => vec![HashAlgorithm::Sha256, HashAlgorithm::Sha512],
         };
